@@ -3,7 +3,8 @@
 import json, os, subprocess, sys
 VERIF = os.path.dirname(os.path.dirname(os.path.abspath(__file__)))
 sys.path.insert(0, os.path.join(VERIF, "tools"))
-from props import PROPS, NOT_APPLICABLE, HOOK_COMMITS
+from props import PROPS, NOT_APPLICABLE
+HOOK_COMMITS = subprocess.check_output(["git", "-C", "/repo", "log", "--reverse", "--format=%H", "--grep=^verif hooks"], text=True).split()
 
 ids = [json.loads(l)["id"] for l in open(os.path.join(VERIF, "properties.jsonl"))]
 checks = []
